@@ -422,6 +422,33 @@ func SchemaMutations() []SchemaMutation {
 			}
 			return n, true
 		}},
+		{"interface-field-list-of-member", func(r *rand.Rand, s *model.Schema) (string, bool) {
+			// an interface field typed by an interface or union, implemented by a LIST of a member (a list is no subtype of its element)
+			for _, o := range s.Types {
+				if o.Kind != model.Object {
+					continue
+				}
+				for _, in := range o.Interfaces {
+					it := s.Type(in)
+					if it == nil {
+						continue
+					}
+					for _, fi := range it.Fields {
+						if k, known := s.KindOf(fi.Type.Base()); !known || (k != model.Interface && k != model.Union) || fi.Type.List || (fi.Type.Of != nil && fi.Type.Of.List) {
+							continue
+						}
+						fo := o.Field(fi.Name)
+						pts := s.PossibleTypes(fi.Type.Base())
+						if fo == nil || len(pts) == 0 {
+							continue
+						}
+						fo.Type = model.ListOf(model.Named(pts[r.Intn(len(pts))]))
+						return fo.Name, true
+					}
+				}
+			}
+			return "", false
+		}},
 		{"interface-arg-nullability-tightened", func(r *rand.Rand, s *model.Schema) (string, bool) {
 			// the same named type with a tighter wrapper (Int -> Int!, [T] -> [T!], [[T]]! -> [[T!]]!): argument types are
 			// invariant, a narrower one is as wrong as another type
